@@ -5,6 +5,9 @@
 package main
 
 import (
+	"bytes"
+	"os"
+
 	"verifharness/smtpd"
 	"verifharness/vh"
 )
@@ -18,11 +21,35 @@ func gen(g *vh.Gen) {
 	}
 }
 
-func exec(kind string, in []string) []string {
-	if kind != "smtp" {
-		return []string{"UNKNOWN-KIND"}
+// genAsm: well-formed dialogues (nothing after QUIT) for the assembled-system stream.
+func genAsm(g *vh.Gen) {
+	o := smtpd.Opts{Garbage: 0.04, MaxBody: 60}
+	for i := 0; i < g.N(40, 1500); i++ {
+		c, pool := smtpd.GenCfg(g, o)
+		stream := smtpd.GenDialogue(g, c, pool, o)
+		// mailbox names with '/' cannot be addressed through the REST route (see K-C14): keep them out of this stream
+		stream = bytes.ReplaceAll(stream, []byte("x/y"), []byte("xsy"))
+		if !bytes.HasSuffix(bytes.ToUpper(bytes.TrimRight(stream, "\r\n")), []byte("QUIT")) {
+			stream = append(stream, []byte("QUIT\r\n")...)
+		}
+		g.Emit("asm", append(c.Fields(), vh.H(stream))...)
 	}
-	return smtpd.Exec(in)
 }
 
-func main() { vh.Main(gen, exec) }
+func exec(kind string, in []string) []string {
+	switch kind {
+	case "smtp":
+		return smtpd.Exec(in)
+	case "asm":
+		return smtpd.ExecAsm(in)
+	}
+	return []string{"UNKNOWN-KIND"}
+}
+
+func main() {
+	if len(os.Args) > 1 && os.Args[1] == "asmchild" {
+		smtpd.AsmChild()
+		return
+	}
+	vh.Main(func(g *vh.Gen) { gen(g); genAsm(g) }, exec)
+}
